@@ -8,31 +8,31 @@ TB = "rustc nightly 1.97 MIR of the dev profile is faithful (same semantics as t
 CLAIMED = {
  "C01": ("T5 untrusted-input dataflow over MIR: callee panic preconditions (derived from callee MIR, substituted at call sites) that depend on numbers parsed from the text must be excluded by dominating, still-valid guards in from_str; T3 guard for m % r; T5 per-body panic census of the nom grammar functions/closures (grammar-total)",
          "Clause-level structural decision for ALL input strings at once: no panic site whose condition depends on a parsed number is reachable without a dominating guard on that number; stored degrees are guarded by m % r == 0; set() writes both directions under the pairing guard; printer and parser agree on ranges, emission/consumption condition and the dimension default. The print/parse round-trip identities themselves are value-level and NOT decided.", "4/C01"),
- "C04": ("T3 guard-dominates-effect (degree comparison between self and other dominates every extension of a morphism; degrees_match dominates every pair queued in fold), T2 required dependence, T4 range/constant slots (inclusive index ranges, base chamber 1, candidate range 2..=size)",
+ "C04": ("T3 guard-dominates-effect (degree comparison between self and other dominates every extension of a morphism; degrees_match dominates every pair queued in fold), T2 required dependence, T4 range/constant slots (inclusive index ranges, base chamber 1, candidate range 2..=size); T4 None outside the ranges for op / r / v / m (shared with C02: morphism rejects a base image that is not a chamber only through it)",
          "Clause-level structural decision: necessary conditions of degree preservation, of is_minimal/minimal_image agreeing on one relation, and of range completeness hold on every path. Minimality/uniqueness of the quotient and exactness of the automorphism list are NOT decided.", "4/C04"),
  "C11": ("T4 constant slot (subgroup scans start at canon(base row 0)), T2 required dependence (representatives read table.get), T9 construct-through (compact() on every return; who-may-call CosetTable::set), T3 guards in scan_and_connect; T9 relator scan shape",
          "Clause-level structural decision: necessary conditions of 'H fixes row 0', 'representatives trace to their rows', 'no dead rows' and inverse-consistency of entries hold for every presentation. Correctness/termination of Todd-Coxeter itself is NOT decided.", "4/C11"),
- "C02": ("T5 range-guard dataflow over MIR: every panicking operation fed by an integer argument of the basic queries is dominated by a valid range guard (callee preconditions derived from callee MIR); is_complete overrides; T12 accessor range table",
+ "C02": ("T5 range-guard dataflow over MIR: every panicking operation fed by an integer argument of the basic queries is dominated by a valid range guard (callee preconditions derived from callee MIR); is_complete overrides; T12 accessor range table; T4 out-of-range tuples reach only None returns (path conditions evaluated on small arguments); T9 builder slots (build_set / build_sym_using_vs / build_sym_using_ms / as_* conversions)",
          "Clause-level structural decision for ALL index pairs and chambers at once: totality of op/r/m/v in the four representations (no panic through arguments; out-of-range reaches None). Involution, orbit lengths, agreement of representations and traversal semantics are value-level and NOT decided.", "4/C02"),
- "C03": ("T6 opaque-value lint: census of ordering/arithmetic/ordered-container operations in the canonical-form pipeline with backward root classification (label vs index vs canonical number); T4 all-seeds minimum; T2 code content; T3 compare_codes compares positions 0.. unbounded and ends only on a difference or an exhausted code",
+ "C03": ("T6 opaque-value lint: census of ordering/arithmetic/ordered-container operations in the canonical-form pipeline with backward root classification (label vs index vs canonical number); T4 all-seeds minimum; T2 code content; T3 compare_codes compares positions 0.. unbounded and ends only on a difference or an exhausted code; T8 structural equality of symbols (derived PartialEq or every relevant field compared); T9 canonical renumbering (inverse maps over all chambers, op / v looked up through them)",
          "Conditional proof of 'every renumbering yields the same canonical form': label opacity (equivariance, by parametricity) and minimum over all seeds are decided; the remaining step (the code determines the symbol = traversal coverage) is assumed. Isomorphism with the input, fixed point and 'equal forms => isomorphic' are NOT decided.", "4/C03"),
  "C05": ("T9 construct-through (every cover is derived::cover / cover_for_table of the base's own fundamental group and coset table), T2 required dependence (cover closures read base op and m, sheet map traces the edge word), T3/T4 oriented-cover branches and sheet constant; T4 cover algebra (closures of derived::cover evaluated on all small d: projection commutes, degrees preserved, equal fibres)",
          "Clause-level structural decision: necessary conditions of 'assembled from the base' and of the oriented cover's sheet count hold on every path. Commutation of the projection, fibre sizes, connectedness and the conjugacy-class count are NOT decided.", "4/C05"),
- "C06": ("T3 guard-dominates-effect with deep validity (every generated node passed check_and_apply_implications and check_canonicity on its own, unmodified D-set), T3 completeness guard in extract, T4 counter/range/root slots; T9 shape of the orbit scan (scan_single_direction exits, scan_orbit = (head, tail, 4-a-b, w[a]))",
+ "C06": ("T3 guard-dominates-effect with deep validity (every generated node passed check_and_apply_implications and check_canonicity on its own, unmodified D-set), T3 completeness guard in extract, T4 counter/range/root slots; T9 shape of the orbit scan (scan_single_direction exits, scan_orbit = (head, tail, 4-a-b, w[a])); T2 bound passthrough (DSets::new hands dim and max_size to the search unmodified; one-chamber root)",
          "Clause-level structural decision for a module no test exercises: the closure and orderly-generation filters are applied to every node, only complete sets are emitted, numbering is 1,2,3... Irredundancy and completeness of the enumeration are NOT decided.", "4/C06"),
- "C07": ("T4 constant/table relations (curvature windows by sign, CURV_FAC divisible by 1..=7, branching bound 7, min-degree table r*v>=3), T3 with bool-join disjunct analysis (every way of emitting passes window + filters), T4 counter; T4 window completeness (each window contains curvatures that certainly occur); T4 curvature bookkeeping / minimal hyperbolicity / good-orbifold list / index ranges",
+ "C07": ("T4 constant/table relations (curvature windows by sign, CURV_FAC divisible by 1..=7, branching bound 7, min-degree table r*v>=3), T3 with bool-join disjunct analysis (every way of emitting passes window + filters), T4 counter; T4 window completeness (each window contains curvatures that certainly occur); T4 curvature bookkeeping / minimal hyperbolicity / good-orbifold list / index ranges; T9 orbifold key of the generator (cones, `*` iff a loop, corners, `x` iff not weakly oriented; which degree goes where)",
          "Clause-level structural decision: window signs, exactness of the scaled integer curvature, degree >= 3 and the output filters hold for every D-set and geometry. Equality with the oracle sets (completeness/irredundancy) is NOT decided.", "4/C07"),
- "C08": ("T9/T4: geometry predicates are the sign tests of curvature(ds); T3 spherical needs positive; T4 exclusion table (1 cone -> false, 2 -> equal orders) on the oriented cover's cones; T3 a degree is printed bare only under v <= 9; T2 loopless test over every orbit chamber; T4 Euler characteristic and handle/cross-cap counts by expression evaluation",
+ "C08": ("T9/T4: geometry predicates are the sign tests of curvature(ds); T3 spherical needs positive; T4 exclusion table (1 cone -> false, 2 -> equal orders) on the oriented cover's cones; T3 a degree is printed bare only under v <= 9; T2 loopless test over every orbit chamber; T4 Euler characteristic and handle/cross-cap counts by expression evaluation; T9 symbol parts (full cone list with multiplicity, `*` + corners per boundary component); T9 subsymbol renumbering through indices[.]",
          "Thin clause-level decision (weakest claim): predicate/curvature-sign agreement and the shape of the bad-orbifold exclusion. Gauss-Bonnet identity, invariance under renumbering/dual and behaviour under covers are NOT decided.", "4/C08"),
  "C09": ("T1 write-through for FreeWord (shared with C10), T3 guards on cone/relator insertion with operand correspondence (same word, same degree), T4 index-pair and orbit-representative coverage, T3 mutual inverses in find_generators",
          "Clause-level structural decision: all words reduced (proved modulo A5), cones = branched orbits with their own degree, no empty relators, one relator per 2-orbit of every index pair incl. mirrors, facet sides carry inverse words. That the presentation defines the orbifold fundamental group is NOT decided.", "4/C09"),
- "C12": ("T9 construct-through (children = potential_children filtered by is_canonical; extract = compact()), T3 guards (contradiction edge cannot reach Some; deductions joined and re-queued; emission only when complete), T4 row bound min(max_rows, len+1); T3 closure seeded at both ends of a new entry; T4 one slot order (search order = comparison order); T9 relator scan shape",
+ "C12": ("T9 construct-through (children = potential_children filtered by is_canonical; extract = compact()), T3 guards (contradiction edge cannot reach Some; deductions joined and re-queued; emission only when complete), T4 row bound min(max_rows, len+1); T3 closure seeded at both ends of a new entry; T4 one slot order (search order = comparison order); T9 relator scan shape; non-empty-relator guard decided on a length table (exactly the empty relators are dropped)",
          "Clause-level structural decision: canonical filter, contradiction rejection, completeness on emission and the row bound hold for every presentation and bound. Pairwise inequivalence and completeness of the list are NOT decided.", "4/C12"),
- "C13": ("T4 operand slots and T3 guards of the Reidemeister-Schreier construction (transversal along the spanning tree, generator wx*g*wy^-1 for unlabelled edges over all rows/letters, edge-word pairs, single-cut propagation, relators from every row), and of core/intersection tables (tuple of all rows; pair images in slot order; numbering by table length; compact on return)",
+ "C13": ("T4 operand slots and T3 guards of the Reidemeister-Schreier construction (transversal along the spanning tree, generator wx*g*wy^-1 for unlabelled edges over all rows/letters, edge-word pairs, single-cut propagation, relators from every row), and of core/intersection tables (tuple of all rows; pair images in slot order; numbering by table length; compact on return); every non-empty relator filed (guard decided on a length table)",
          "PARTIAL, structural necessary conditions only; that the generators generate the full stabiliser, that the relators present it and the row counts of core/intersection tables are NOT decided.", "11.6"),
- "C14": ("T6(b) factor-through: relators are consumed only by relator_as_vector whose letter use is sign test + order-independent +=/-= at |g|-1; T9 sorted-on-return with no later mutation; T2 drop-ones / pad-zeros chain; T3/T4 divisor-chain fix-up (guard decided on an integer grid; (gcd, lcm) stores; all pairs); T7 extended-Euclid contract of gcdx by induction; T4 elimination ranges",
+ "C14": ("T6(b) factor-through: relators are consumed only by relator_as_vector whose letter use is sign test + order-independent +=/-= at |g|-1; T9 sorted-on-return with no later mutation; T2 drop-ones / pad-zeros chain; T3/T4 divisor-chain fix-up (guard decided on an integer grid; (gcd, lcm) stores; all pairs); T7 extended-Euclid contract of gcdx by induction; T4 elimination ranges; start of every row / column loop of the elimination routines against a table (evaluated with the step index at 5); simultaneous update of the Euclid step (reads before overwrites)",
          "Proves invariance under rotation/conjugation/free reduction (result factors through exponent sums) and decides ascending output and the 1-dropping/zero-padding shape. The invariant-factor values (Smith normal form) are NOT decided.", "4/C14"),
- "C15": ("T3 guard-dominates-effect with data-chain correspondence (returned cover <- all v == 1 on that cover; Some(cover) <- abelian_invariants(stabilizer(0, relators, same table)) == [0,0,0]; candidates <- flattens_all), T4 point-group name/size tables vs index bound; T9 flattens_all = exact cone order",
+ "C15": ("T3 guard-dominates-effect with data-chain correspondence (returned cover <- all v == 1 on that cover; Some(cover) <- abelian_invariants(stabilizer(0, relators, same table)) == [0,0,0]; candidates <- flattens_all), T4 point-group name/size tables vs index bound; T9 flattens_all = exact cone order; iterator pipeline of degree() interpreted on model sequences (orders 1..6 in a table of 6 rows)",
          "Clause-level structural decision: branch-freeness (2D), Z^3 test on the same table (3D), covers of the oriented cover, and dead panic arms of the point-group lookup. Existence for every euclidean symbol and numbering independence are NOT decided.", "4/C15"),
  "C17": ("T3 + T9: every Euclidean::Yes is dominated by the four certificate predicates on the data chain ds -> cov -> simp -> key; verdict constructors confined to fail/give_up/is_euclidean; T4 Z^3 subgroup-count constants, key literal parsed by an engine-side reader, data-file format vs the emitting code; T2 orbifold-graph mirror test over every orbit chamber and both indices; T4 invariant key (orientation flag decision table, order of parts)",
          "Clause-level structural decision: a yes verdict cannot be produced without its certificate chain; fallback constants are those of Z^3; the invariant table parses in the reader's format (219 entries, 212 distinct). Totality, invariance and cover consistency are NOT decided.", "4/C17"),
@@ -42,10 +42,10 @@ CLAIMED = {
          "Proves clone independence modulo Vec/HashMap::clone being deep; decides !Sync / no escaping borrow / &mut unite and that find only performs path compression to the exit-guarded root. 'Same representative <=> connected by the unions' and first-occurrence order are NOT decided.", "4/C20"),
  "C10": ("T1 write-through over every MIR body (all writers of FreeWord.w pass through normalized) + guard shape of normalized + type facts; T9 ordering (lexicographic, total letter order decided on all pairs, length tie-break)",
          "Proves, modulo the completeness of one-pass stack reduction (A5, whose guard shape is also checked), that every FreeWord value produced by any operation is freely reduced; decides that partial_cmp delegates to cmp and Eq/Hash are derived. Total-order, minimal-rotation and permutation-set clauses are value-level and NOT decided.", "4/C10"),
- "C18": ("T1 write-through + T7 symbolic interval evaluation (residue in [0,P-1] on every path), T4 constant relation (modulus prime, no overflow), T5 range guard on the pivot row counter, T3 guard-dominates-effect in solve; T4 integer row step is a determinant-1 column-clearing transformation applied identically to the multiplier (symbolic evaluation on gcdx samples); T7 extended-Euclid contract of gcdx",
+ "C18": ("T1 write-through + T7 symbolic interval evaluation (residue in [0,P-1] on every path), T4 constant relation (modulus prime, no overflow), T5 range guard on the pivot row counter, T3 guard-dominates-effect in solve; T4 integer row step is a determinant-1 column-clearing transformation applied identically to the multiplier (symbolic evaluation on gcdx samples); T7 extended-Euclid contract of gcdx; T4 residue class operators (integer operation of the same name, evaluated), T7 modular inverse = extended Euclid (invariant by induction on sampled states, simultaneous update, r == 1 asserted), T9 dense matrix primitives (+, -, *, transpose element formulas over full ranges)",
          "Proves canonical residues for every integer input modulo rem_euclid's contract; decides that no matrix shape can push the pivot search past the last row in either row-echelon twin and that solve divides only under can_divide and returns Some only after the residual test. Exact determinant/null-space/solve values and p-adic lifting are NOT decided.", "4/C18"),
- "C16": ("T4 fn-item table census (the four moves; merge steps with tiles/facets merged in primal and dual, even number of dualisations), T3 fixpoint flag discipline (return only under changed == false, reset per round, set on every Some(out) path), T9 construct-through (input and every move output through merge_all; result = as_dsym(current) with branching 1 everywhere; merge_all threads one carried D-set and keeps every Some(out)); T3 squeeze guard (exclusions canonicalised as words in the involutions)",
-         "PARTIAL, driver discipline only: simplify() returns at a fixpoint of all four moves after re-merging, in the input's orientation, and builds a branch-free symbol. That any move or merge preserves the manifold, its fundamental group or sphericity of tiles/vertex figures, absence of panics and numbering independence are NOT decided.", "11.6"),
+ "C16": ("T4 fn-item table census (the four moves; merge steps with tiles/facets merged in primal and dual, even number of dualisations), T3 fixpoint flag discipline (return only under changed == false, reset per round, set on every Some(out) path), T9 construct-through (input and every move output through merge_all; result = as_dsym(current) with branching 1 everywhere; merge_all threads one carried D-set and keeps every Some(out)); T3 squeeze guard (exclusions canonicalised as words in the involutions); T9 re-gluing lists are perfect matchings closed under the old operation (op words modulo involution / commutation); T4 cut_face / cut_tile pair lists unfolded symbolically (every operation defined once on every fresh chamber, commuting non-adjacent operations); T9 collapse shape and call sites (removed set = orbits of the collapsed D-set under an index set containing the connector)",
+         "PARTIAL, driver discipline and structural validity of the rewriting primitives: simplify() returns at a fixpoint of all four moves after re-merging, in the input's orientation, and builds a branch-free symbol; re-gluing lists, cut_face / cut_tile gluing tables and collapse keep every operation an involution defined on all chambers with commuting non-adjacent operations at the chambers they create. That any move or merge preserves the manifold, its fundamental group or sphericity of tiles/vertex figures, absence of panics and numbering independence are NOT decided.", "11.6"),
 }
 
 NA = {
@@ -69,7 +69,7 @@ def main():
             "engine": "mirfacts+sa",
             "level_claimed": {"category": "other", "text": text, "design_ref": "DESIGN.md section " + ref},
             "level_note": TB,
-            "technique": "static analysis: " + tech + "; plus, for the property's anchor files, the table-driven loop-structure rule T10 (must-reach calls / early exits / carried state per loop), the stale-element lint T11, the accessor range table T12, the member-test lint T13 and sibling cross-checks, applied to the functions reachable from the property's mechanism (DESIGN 11.7)",
+            "technique": "static analysis: " + tech + "; plus, for the property's anchor files, the table-driven loop-structure rule T10 (must-reach calls / early exits / carried state per loop), the update-order table T16 (loop-carried variables read on the same side of their in-iteration overwrite as on the reference tree), the stale-element lint T11, the accessor range table T12, the member-test lint T13 and sibling cross-checks, applied to the functions reachable from the property's mechanism (DESIGN 11.7)",
         })
     na = []
     for p in props:
